@@ -17,14 +17,25 @@ phi at the join).
 C3_NARROW = ("byte", "int8_t", "int16_t", "uint8_t", "uint16_t")
 A_C3_CONSTOPS = "c3-const-bit-operators"
 A_C3_CONSTDIV = "c3-const-division"
+A_ARM_SMALL = "arm-at-most-four-parameters"
+A_ARM_64 = "arm-no-64-bit-types"
+A_ARM_8 = "arm-no-8-bit-types"
 A_NARROW = "narrow-int-mul-div-neg-and-float-casts"   # feature switch: x86-64 selector has no pattern
 C3_INTS = ["int", "byte", "int8_t", "int16_t", "int32_t", "int64_t", "uint8_t", "uint16_t", "uint32_t", "uint64_t"]
 
 
 class C3Gen:
-    def __init__(self, r, avoid=()):
+    def __init__(self, r, avoid=(), target="x86_64"):
         self.r = r
         self.avoid = frozenset(avoid)
+        self.ints = list(C3_INTS)
+        if target == "arm":
+            if A_ARM_64 in self.avoid:
+                self.ints = [t for t in self.ints if "64" not in t]
+            if A_ARM_8 in self.avoid:
+                self.ints = [t for t in self.ints if t not in ("byte", "int8_t", "uint8_t")]
+        self.small = target == "arm" and A_ARM_SMALL in self.avoid
+        self.cvals = {}       # constant name -> value
         self.out = []
         self.globals = []     # (name, type)
         self.garrays = []     # (name, type, n)
@@ -39,14 +50,24 @@ class C3Gen:
         return "%s%d" % (p, self.n)
 
     def ityp(self):
-        return self.r.choice(C3_INTS + ["int", "int", "int"])
+        return self.r.choice(self.ints + ["int", "int", "int"])
 
     def const_expr(self, depth=2):
+        """(text, value) with the value inside the 32-bit int range at every node."""
+        for _ in range(30):
+            t, v = self._const_expr(depth)
+            if v is not None and -(1 << 31) <= v < (1 << 31):
+                return t, v
+        return "1", 1
+
+    def _const_expr(self, depth):
         r = self.r
         if depth <= 0 or r.random() < 0.3:
             if self.consts and r.random() < 0.3:
-                return r.choice(self.consts)
-            return r.choice(("0", "1", "2", "7", "0x10", "255", "1000", "65536"))
+                n = r.choice(self.consts)
+                return n, self.cvals[n]
+            t = r.choice(("0", "1", "2", "7", "0x10", "255", "1000", "65536"))
+            return t, int(t, 0)
         ops = ["+", "-", "*", "%"]
         if A_C3_CONSTDIV not in self.avoid:
             ops.append("/")
@@ -54,12 +75,26 @@ class C3Gen:
             ops += ["<<", ">>", "|", "&", "^"]
         op = r.choice(ops)
         self.features.add("const:" + op)
-        b = self.const_expr(depth - 1)
+        bt, bv = self._const_expr(depth - 1)
         if op in ("/", "%"):
-            b = r.choice(("1", "2", "3", "7"))
+            bt = r.choice(("1", "2", "3", "7"))
+            bv = int(bt)
         if op in ("<<", ">>"):
-            b = r.choice(("0", "1", "3"))
-        return "(%s %s %s)" % (self.const_expr(depth - 1), op, b)
+            bt = r.choice(("0", "1", "3"))
+            bv = int(bt)
+        at, av = self._const_expr(depth - 1)
+        if av is None or bv is None:
+            return "0", None
+        if op in ("/", "%") and av < 0:
+            return "0", None      # sign conventions of / and % on negative operands are not what is tested here
+        if op in ("/", "%") and bv <= 0 or op in ("<<", ">>") and not 0 <= bv < 31:
+            return "0", None
+        v = {"+": lambda: av + bv, "-": lambda: av - bv, "*": lambda: av * bv, "%": lambda: av % bv,
+             "/": lambda: av // bv, "<<": lambda: av << bv, ">>": lambda: av >> bv, "|": lambda: av | bv,
+             "&": lambda: av & bv, "^": lambda: av ^ bv}[op]()
+        if v is None or not -(1 << 31) <= v < (1 << 31):
+            return "0", None
+        return "(%s %s %s)" % (at, op, bt), v
 
     def gen_top(self):
         r = self.r
@@ -67,18 +102,19 @@ class C3Gen:
         if c < 0.2:
             n = self.uid("K")
             t = r.choice(("int", "int", "byte"))
-            e = self.const_expr()
+            e, v = self.const_expr()
             if t == "byte":
                 e = "cast<byte>(%s)" % e
             self.out.append("const %s %s = %s;" % (t, n, e))
             if t == "int":
                 self.consts.append(n)
+                self.cvals[n] = v
             self.features.add("const")
         elif c < 0.45:
             n = self.uid("g")
             t = self.ityp()
             if r.random() < 0.5 and t == "int":
-                self.out.append("var %s %s = %s;" % (t, n, self.const_expr(1)))
+                self.out.append("var %s %s = %s;" % (t, n, self.const_expr(1)[0]))
                 self.features.add("global-initialised")
             else:
                 self.out.append("var %s %s;" % (t, n))
@@ -250,7 +286,7 @@ class C3Gen:
         r = self.r
         name = self.uid("fn")
         ret = r.choice(("void", "int", "int"))
-        params = [(self.uid("p"), self.ityp()) for _ in range(r.choice((0, 1, 2, 3, 5)))]
+        params = [(self.uid("p"), self.ityp()) for _ in range(r.choice((0, 1, 2, 3, 4) if self.small else (0, 1, 2, 3, 5)))]
         body = self.stmts(params, 0, ret)
         if ret == "int":
             body += " return %s;" % self.expr(params, 1)
@@ -267,8 +303,8 @@ class C3Gen:
         return "\n".join(self.out) + "\n"
 
 
-def gen_c3(r, avoid=()):
-    g = C3Gen(r, avoid)
+def gen_c3(r, avoid=(), target="x86_64"):
+    g = C3Gen(r, avoid, target)
     return g.build(r.randrange(4, 12)), sorted(g.features)
 
 
